@@ -91,7 +91,8 @@ def _format_value(v):
     """Format a scalar or list value using Blackbird syntax.
 
     Args:
-        v: a Python or NumPy scalar, a string, or a list of these
+        v: a Python or NumPy scalar, a string, a symbolic expression
+            in the free parameters, or a list of these
 
     Returns:
         str: the value as it is written in a Blackbird script
@@ -104,6 +105,13 @@ def _format_value(v):
 
     if isinstance(v, complex):
         return "{}{}{}j".format(v.real, "+-"[int(v.imag < 0)], np.abs(v.imag))
+
+    if isinstance(v, sym.Expr):
+        # value contains free parameters: put each of them in braces. The symbols
+        # are renamed (rather than their names replaced in the printed text), so
+        # that names contained in other names or in printed numbers stay intact.
+        braced = {p: sym.Symbol("{" + str(p) + "}") for p in v.free_symbols}
+        return str(v.xreplace(braced))
 
     # booleans, ints, floats
     return "{}".format(v)
@@ -432,11 +440,7 @@ class BlackbirdProgram:
 
                     elif isinstance(v, sym.Expr):
                         # argument contains free parameters
-                        res = str(v)
-                        for p in v.free_symbols:
-                            res = res.replace(str(p), "{"+str(p)+"}")
-
-                        args.append(res)
+                        args.append(_format_value(v))
 
                     else:
                         # anything that doesn't need to be dealt with as a special case,
